@@ -55,8 +55,8 @@ func init() {
 }
 
 var hdrNames = []string{"X-K", "X-Ver", "Accept", "x-k", "Content-Type", "X-K", "x-ver", "ACCEPT"}
-var hdrExprs = []string{"", "^v[0-9]$", "json", "^(a|b)$", "Chrome", "^$", "1"}
-var hdrValues = []string{"", "v1", "v22", "application/json", "a", "b", "Chrome/1", "zz", " v1", "v1 ", "\ta", "b\n", " ", "zz, v1", "v1,zz", "x,a", "a, b", "text/html, application/json", "v1;q=1", "a|b"}
+var hdrExprs = []string{"", "^v[0-9]$", "json", "^(a|b)$", "Chrome", "^$", "1", "(?i)^v1$", "(?i)chrome", "^(?i:a)$", "^zz$", "(?s)^.b.$"}
+var hdrValues = []string{"", "v1", "v22", "application/json", "a", "b", "Chrome/1", "zz", " v1", "v1 ", "\ta", "b\n", " ", "zz, v1", "v1,zz", "x,a", "a, b", "text/html, application/json", "v1;q=1", "a|b", "V1", "CHROME/1", "A", "ZZ", "\nb\n"}
 
 func genPairs(rng *rand.Rand) []string {
 	n := rng.Intn(3)
